@@ -500,19 +500,28 @@ def readS (zero : α) (f : FileM α) (sfs : List SField) : ReadRes α :=
         | (some vs, false) => let r := go rest; ⟨vs :: r.rows, r.panicked, r.err⟩
   go f.rows
 
-/-- `DecodeRowFields(names...)`: values until the first name the file does not have -/
-def rowFields (keys : List Bytes) (cells : List Bytes) : List Bytes → Except Fault (List (RVal α) × Bool)
+/-- the map `DecodeRowFields(names...)` fills: entries until the first name the file does not have -/
+def rowFieldsMap (keys : List Bytes) (cells : List Bytes) : List Bytes → Except Fault (List (Bytes × Bytes) × Bool)
   | [] => .ok ([], false)
   | n :: rest =>
     match lastIdx keys (lower n) with
-    | none => .ok ((n :: rest).map fun _ => .missing, true)
+    | none => .ok ([], true)
     | some j =>
       match cells[j]? with
       | none => .error .index
       | some cell =>
-        match rowFields keys cells rest with
+        match rowFieldsMap keys cells rest with
         | .error f => .error f
-        | .ok (vs, e) => .ok (.str (strOf cell) :: vs, e)
+        | .ok (m, e) => .ok ((n, strOf cell) :: m, e)
+
+/-- what the caller finds in the map under each requested name (`fields[name]`, keyed by the name as
+requested) and whether an error was recorded -/
+def rowFields (keys : List Bytes) (cells : List Bytes) (names : List Bytes) : Except Fault (List (RVal α) × Bool) :=
+  match rowFieldsMap keys cells names with
+  | .error f => .error f
+  | .ok (m, e) => .ok (names.map (fun n => match m.find? (fun p => p.1 == n) with
+      | some p => RVal.str p.2
+      | none => RVal.missing), e)
 
 def readF (f : FileM α) (names : List Bytes) : ReadRes α :=
   let keys := fileKeys f.fields
